@@ -606,6 +606,18 @@ func armPending(id string, encoded []byte, recent [][]byte) bool {
 	return pendingFile.Truncate(int64(len(buf))) == nil
 }
 
+// ArmProbe puts a pending case on disk before code that runs outside Eval (the package-level
+// cold-start probes, which run before TestMain): if the process dies in there with a fatal runtime
+// error, the driver reports a violation with this case instead of an inconclusive run.
+func ArmProbe(id string, c any) {
+	if enc, err := json.Marshal(c); err == nil {
+		armPending(id, enc, nil)
+	}
+}
+
+// DisarmProbe ends ArmProbe.
+func DisarmProbe() { disarmPending() }
+
 func disarmPending() {
 	if pendingFile != nil {
 		_ = pendingFile.Truncate(0)
